@@ -41,6 +41,9 @@ Theorems
       C06G_run_fwd, C06G_traces, C06G_run_bwd, C06G_canon_run_sound
                           trace level (see the caveat on `CanonRun` in notes/par_design.md: it names the stopping point of
                           the internal steps through the hand successor; the program-pure statement is `C06G_bwd`)
+      C06G_worker_count_pos, _config, _env, _total, _err
+                          the generated `determine_worker_count`: >= 1 for every environment string and configuration
+                          (discharges `0 < p.W` of C05 / C06), explicit `config.workers` wins, `FLACENC_WORKERS` otherwise
   `C06G_result` also gives, on the `Ok` path, `digest = hashed` and that the final STREAMINFO updates were made.
   Corollaries for the generated programs from C05 / C06: Theorems/C06GenCor.lean.
   NOT proved: uniqueness of the canonical stopping point after a protocol step (needed for a trace statement whose program
@@ -1460,5 +1463,65 @@ both `Fill` programs, and the first hand step from `init` is simulated. -/
 example : ∃ g, Corr ⟨2, [⟨[1, 2], true⟩], none, true⟩ g (init ⟨2, [⟨[1, 2], true⟩], none, true⟩) := by
   obtain ⟨_, g0, _, _, h⟩ := C06G_init ⟨2, [⟨[1, 2], true⟩], none, true⟩ fillLeBytes
   exact ⟨g0, h⟩
+
+/-! ## the worker count (`determine_worker_count`, generated as `Gen.Par.determineWorkerCount`) -/
+
+theorem filter_pos_getD (o : Option Nat) (d : Nat) (hd : 0 < d) :
+    0 < Option.getD (Option.filter (fun n => decide (n > 0)) o) d := by
+  cases o with
+  | none => simpa using hd
+  | some v =>
+    by_cases hv : v > 0
+    · simp [Option.filter, hv]
+    · simp [Option.filter, hv]; exact hd
+
+/-- `determine_worker_count` returns `Err` exactly when `available_parallelism()` does. -/
+theorem C06G_worker_count_total (ap : Nat) (envv : Option String) (config : FlacVerif.Gen.Encoder) :
+    ∃ W, determineWorkerCount (some ap) envv config = some W := ⟨_, rfl⟩
+
+theorem C06G_worker_count_err (envv : Option String) (config : FlacVerif.Gen.Encoder) :
+    determineWorkerCount none envv config = none := rfl
+
+/-- THE HYPOTHESIS `0 < p.W` OF THE C05 / C06 TOP THEOREMS IS DISCHARGED FOR THE CURRENT SOURCE: for every value of the
+environment variable (also `"0"`, `""`, garbage, overflow) and every configuration, the worker count is at least 1,
+given what the types guarantee: `available_parallelism()` and `config.workers` are `NonZeroUsize`. -/
+theorem C06G_worker_count_pos (ap : Nat) (hap : 1 ≤ ap) (envv : Option String) (config : FlacVerif.Gen.Encoder)
+    (hcfg : ∀ n, config.workers = some n → 0 < n) (W : Nat)
+    (h : determineWorkerCount (some ap) envv config = some W) : 0 < W := by
+  simp only [determineWorkerCount, ParProg.bindO] at h
+  injection h with h
+  subst h
+  cases hw : config.workers with
+  | none => simp only [ParProg.mapOr]; exact filter_pos_getD _ _ hap
+  | some n => simp only [ParProg.mapOr]; exact hcfg n hw
+
+/-- an explicit `config.workers = Some(n)` wins over the environment and the core count -/
+theorem C06G_worker_count_config (ap : Nat) (envv : Option String) (config : FlacVerif.Gen.Encoder) (n : Nat)
+    (h : config.workers = some n) : determineWorkerCount (some ap) envv config = some n := by
+  simp [determineWorkerCount, ParProg.bindO, ParProg.mapOr, h]
+
+/-- without `config.workers`: a positive decimal value of the environment variable wins, anything else (unset, `"0"`,
+not a number) leaves the core count -/
+theorem C06G_worker_count_env (ap : Nat) (envv : Option String) (config : FlacVerif.Gen.Encoder)
+    (h : config.workers = none) :
+    determineWorkerCount (some ap) envv config =
+      some (match envv.bind (ParProg.parseUsize 64) with | some (n + 1) => n + 1 | _ => ap) := by
+  simp only [determineWorkerCount, ParProg.bindO, ParProg.mapOr, h]
+  cases hb : envv.bind (fun s => ParProg.parseUsize 64 s) with
+  | none => simp [Option.filter]
+  | some v => cases v <;> simp [Option.filter]
+
+/-- the reading of `str::parse::<usize>` on the interesting strings -/
+example : ParProg.parseUsize 64 "3" = some 3 ∧ ParProg.parseUsize 64 "+12" = some 12 ∧ ParProg.parseUsize 64 "007" = some 7 ∧
+    ParProg.parseUsize 64 "0" = some 0 ∧ ParProg.parseUsize 64 "" = none ∧ ParProg.parseUsize 64 "+" = none ∧
+    ParProg.parseUsize 64 " 3" = none ∧ ParProg.parseUsize 64 "3 " = none ∧ ParProg.parseUsize 64 "-1" = none ∧
+    ParProg.parseUsize 64 "1_0" = none ∧ ParProg.parseUsize 64 "x" = none ∧
+    ParProg.parseUsize 64 "18446744073709551615" = some 18446744073709551615 ∧
+    ParProg.parseUsize 64 "18446744073709551616" = none := by decide
+
+/-- `FLACENC_WORKERS=0` does NOT give zero workers (the `.filter(|n| *n > 0)` guard); `FLACENC_WORKERS=3` gives 3. -/
+example (config : FlacVerif.Gen.Encoder) (h : config.workers = none) :
+    determineWorkerCount (some 8) (some "0") config = some 8 ∧ determineWorkerCount (some 8) (some "3") config = some 3 := by
+  constructor <;> simp [determineWorkerCount, ParProg.bindO, ParProg.mapOr, h] <;> decide
 
 end FlacVerif.C06Gen
